@@ -97,6 +97,47 @@ structure Req where
   reqData : List (Nat × Nat)
 deriving DecidableEq
 
+/-! ### actix-http's own pool of request heads (`actix-http/src/message.rs`, `requests/head.rs`)
+
+`Request::new()` takes its `Message<RequestHead>` from a thread-local `MessagePool`; a popped head
+goes through `RequestHead::clear`, then whoever builds the request overwrites *some* fields
+(h1 decoder + dispatcher: all; `actix_http::test::TestRequest::finish`: all but `peer_addr`;
+a bare `Request::new()`: none). -/
+
+/-- `RequestHead::default()` -/
+def Head.default : Head := ⟨"GET", "/", "11", none, []⟩
+
+/-- `RequestHead::clear` as of the `fix:` commit (all request-describing fields) -/
+def headClear (h : Head) : Head :=
+  let h := { h with headers := [] }                      -- self.headers.clear()  (+ flags)
+  let h := { h with method := "GET" }                    -- self.method = Method::default()
+  let h := { h with uri := "/" }                         -- self.uri = Uri::default()
+  let h := { h with version := "11" }                    -- self.version = Version::HTTP_11
+  { h with peer := none }                                -- self.peer_addr = None
+
+/-- `RequestHead::clear` before the fix: only flags and headers -/
+def headClearOld (h : Head) : Head := { h with headers := [] }
+
+/-- `MessagePool::get_message` with a given `clear` -/
+def headGet (clear : Head → Head) : List Head → Head × List Head
+  | [] => (Head.default, [])
+  | h :: rest => (clear h, rest)
+
+/-- what a request builder writes into the head it got; `none` = field left as found -/
+structure HeadSpec where
+  method : Option String
+  uri : Option String
+  version : Option String
+  peer : Option (Option Nat)
+  headers : List (String × String)
+
+def buildHead (h : Head) (s : HeadSpec) : Head :=
+  { method := s.method.getD h.method
+    uri := s.uri.getD h.uri
+    version := s.version.getD h.version
+    peer := s.peer.getD h.peer
+    headers := h.headers ++ s.headers }
+
 /-- `actix_router::Path<Url>` -/
 structure PathSt where
   /-- `Url.uri` -/
